@@ -24,7 +24,8 @@ MJDS = {3804: (55267, 55300), 266: (55025, 55100)}
 NPIX = {3804: 4, 266: 6}
 NFIB = 3
 HDUS = ('flux', 'invvar', 'andmask', 'ormask', 'disp', 'plugmap', 'sky')
-COEFF = {3804: (3.5, 0.0001), 266: (3.6, 0.0002)}
+# a different wavelength solution in every plate-MJD file (two files of one plate have the same pixel count)
+COEFF = {(3804, 55267): (3.5, 0.0001), (3804, 55300): (3.5625, 0.000125), (266, 55025): (3.625, 0.0002), (266, 55100): (3.75, 0.00025)}
 
 
 class Table(object):
@@ -85,7 +86,7 @@ class World(object):
         if p not in PLATES or mj not in MJDS[p]:
             raise OSError('no such file ' + filename)
         if kind == 'spPlate':
-            hd = {'NAXIS1': NPIX[p], 'COEFF0': COEFF[p][0], 'COEFF1': COEFF[p][1]}
+            hd = {'NAXIS1': NPIX[p], 'COEFF0': COEFF[(p, mj)][0], 'COEFF1': COEFF[(p, mj)][1]}
             hdus = []
             for k, name in enumerate(HDUS):
                 if name == 'plugmap':
@@ -203,7 +204,7 @@ def _check_outputs(req, res, world, elem_eq, fail):
     ll = res['loglam']
     for i, (p, m, f) in enumerate(req):
         for x in range(NPIX[p]):
-            if abs(float(ll[i, x]) - (COEFF[p][0] + COEFF[p][1] * x)) > 1e-12:
+            if abs(float(ll[i, x]) - (COEFF[(p, m)][0] + COEFF[(p, m)][1] * x)) > 1e-12:
                 fail('readspec: loglam = COEFF0 + COEFF1*pixel for every row', {'i': i, 'x': x})
     for i, (p, m, f) in enumerate(req):
         if int(res['plugmap']['FIBERID'][i]) != f:
